@@ -203,6 +203,10 @@ def check_mir_identity(rep, ref, facts, sub, rule='R17.3'):
     for b in facts.body_list:
         rb = ref.body(b.key)
         if rb is None:
+            if b.key in ((ref.meta.get('helpers') or {}).get('dropped') or []):
+                # a new private helper: inlined into its callers where it has any (all-features build), a free-standing
+                # uncalled body where the only callers are cfg'd out — the same source either way
+                continue
             diff.append((b.key, 'absent from the all-features build'))
             continue
         if b.key not in refh:
